@@ -23,26 +23,9 @@ def nontrivial(case, result):
 
 
 def run(ck):
-    ck.proof_leg("core", "Properties/C04.v")
-    ok, out = V.build_model("core")
-    if not ok:
-        ck.log("model build failed\n" + out[-3000:])
-        ck.proof["broken"].append({"file": "Extract.v", "log": out[-2000:]})
-    okh, outh = V.build_harness(["hx-crdt"])
-    if not okh:
-        ck.log("harness build failed\n" + outh[-3000:])
-        ck.broken_correspondence("orswot", "the executor no longer builds against /repo: " + outh[-1500:], [])
-    bad = V.pin_constants(PINS)
-    if bad:
-        ck.broken_correspondence("orswot-constants", "constants pinned from the source changed: %s" % bad, [])
-    if ok and okh:
-        if not ck.replay:
-            for f in V.corpus_files("C04"):
-                ck.correspondence("hx-orswot", "orswot", "hx-crdt", extra_args=["--replay", f, "mode=c04"],
-                                  name="orswot-corpus", nontrivial=nontrivial)
-        ck.correspondence("hx-orswot", "orswot", "hx-crdt", extra_args=["mode=c04"], nontrivial=nontrivial)
-    ck.finish(
-        level="proof",
+    from checks.orswot_common import run_orswot_check
+    run_orswot_check(
+        ck, "Properties/C04.v", "c04", nontrivial,
         rule="cases = histories of insert/delete on one replica: every sequence of length <= 3 (<= 4 in thorough) over "
              "{insert,delete} x sources {0[,1]} x 2 keys x 6 stamps, once with all stamps inside one forgiveness period "
              "(2 origins, same-instant ties) and once stretched beyond it (rejection), for 1 and 2 sources; all permutations x "
@@ -51,9 +34,7 @@ def run(ck):
              "(entries, tombstones, cut-off probes) are compared between the extracted model and OrSWotSet; the oracle checks "
              "return = prediction = view-changed, no other key changes, and greatest-stamp-wins when stamps are distinct and "
              "within one period. non-trivial = distinct histories with a refused/ineffective operation and a non-empty final set",
-        trusted_base=TRUSTED,
         assumptions=[
             "stamps are valid packed HLC timestamps (fraction <= 249); sources are < N",
             "theorems about acceptance within the forgiveness period assume tick >= 1 (known corner K1, DESIGN.md section 6)",
-        ],
-    )
+        ])
